@@ -499,21 +499,29 @@ theorem len64_le (v : Nat) (hv : v < 18446744073709551616) : len64 v ≤ 64 := b
 
 theorem sizeVarintGo_eq (v : Nat) (hv : v < 18446744073709551616) :
     GoSrc.Wire.sizeVarintGo v = .ok (Int.ofNat (sizeVarint v)) := by
-  unfold GoSrc.Wire.sizeVarintGo sizeVarint Go.bitsLen64 Go.toU
-  have hl := len64_le v hv
-  generalize len64 v = L at hl
-  simp only [show (2:Int)^32 = 4294967296 from by decide, Int.ofNat_eq_natCast, pure]
-  congr 1
-  have e1 : ((L : Int) % 4294967296).toNat = L := by omega
-  rw [e1]
-  have e2 : (9 * L % 4294967296 + 64) % 4294967296 = 9 * L + 64 := by omega
-  have e3 : (64 + L * 9 % 4294967296) % 4294967296 = 9 * L + 64 := by omega
   first
-  | rw [e2]
-  | rw [e3]
-  | (simp only [Nat.mul_comm, Nat.add_comm] at e2 ⊢; rw [e2])
-  rw [Int.tdiv_eq_ediv_of_nonneg (by omega)]
-  omega
+  | (unfold GoSrc.Wire.sizeVarintGo sizeVarint Go.bitsLen64 Go.toU
+     have hl := len64_le v hv
+     generalize len64 v = L at hl
+     simp only [show (2:Int)^32 = 4294967296 from by decide, Int.ofNat_eq_natCast, pure]
+     congr 1
+     have e1 : ((L : Int) % 4294967296).toNat = L := by omega
+     rw [e1]
+     have e2 : (9 * L % 4294967296 + 64) % 4294967296 = 9 * L + 64 := by omega
+     have e3 : (64 + L * 9 % 4294967296) % 4294967296 = 9 * L + 64 := by omega
+     first
+     | rw [e2]
+     | rw [e3]
+     | (simp only [Nat.mul_comm, Nat.add_comm] at e2 ⊢; rw [e2])
+     rw [Int.tdiv_eq_ediv_of_nonneg (by omega)]
+     omega)
+  | -- any other arithmetic on `bits.Len64(v)`: the length is at most 64, the kernel evaluates all 65 cases
+    (unfold GoSrc.Wire.sizeVarintGo sizeVarint Go.bitsLen64
+     have hl := len64_le v hv
+     generalize len64 v = L at hl
+     simp only [pure, Res.ok.injEq]
+     revert L
+     decide +kernel)
 
 /-- the loop of `PutUvarint` followed by its last store -/
 def putG (fuel : Nat) (buf : Bytes) (x : Nat) (i : Int) : Res (Bytes × Int) := do
